@@ -2,6 +2,7 @@ import FeatModel.Model.Proto
 import FeatModel.Model.Assembly
 import FeatModel.Model.Burgers
 import FeatModel.Model.Blocked
+import FeatModel.Model.LocalFE
 /-! line-protocol driver for the C16 models (CSR/banded/vector scatter and gather, symbolic assembly, cell-loop assembly) -/
 open FeatModel FeatModel.Proto FeatModel.Adj FeatModel.Asm
 
@@ -169,6 +170,31 @@ def handle : P String := do
           | none => "UNINIT"
           | some d => showMatrix p d
         pure (" ".intercalate (s!"H {reqs.length}" :: outs))
+  | "flocal" =>
+    -- local matrices / vectors of affine cells from C15's basis polynomials, the rational rule and the cell geometry
+    let shape ← tok
+    let ts ← get
+    set ((ts.dropWhile (· != "GEO")).drop 1)
+    let kind ← tok; let fam ← tok; let rule ← tok; let fcoef ← ratList
+    let d ← nat; let nc ← nat
+    let cells ← many nc (do let nv ← nat; many nv (many d rat))
+    let k := if shape == "tria" then FE.Kind.S else FE.Kind.H
+    let f := if fam == "L2" then FE.Fam.L2 else FE.Fam.L1
+    match FE.tabOf f k d, LocalFE.ruleOf (shape == "tria") d rule with
+    | some t, some r =>
+      let outs := cells.map fun V =>
+        let g := LocalFE.geoOf k d V
+        let vals : List Rat :=
+          if kind == "force" then
+            let fr := LocalFE.pullBack k d V fcoef
+            (List.range t.nloc).map fun i => LocalFE.localEntry r g.detJ (LocalFE.forceIntegrand t fr i)
+          else
+            (List.range t.nloc).flatMap fun i => (List.range t.nloc).map fun j =>
+              LocalFE.localEntry r g.detJ
+                (if kind == "lapl" then LocalFE.laplIntegrand t d g i j else LocalFE.massIntegrand t i j)
+        showRatsL vals
+      pure (" ".intercalate (s!"L {cells.length}" :: outs))
+    | _, _ => pure "BAD-OP unsupported"
   | "bgsd" =>
     -- one Burgers job task over the cells in natural order: the sequence of `local_delta` values
     skipToRec
